@@ -88,3 +88,62 @@ Proof.
   - right. exists r. split; [reflexivity|exact Eb].
 Qed.
 End Node.
+
+(* ------------------------------------------------------------------ C11 at the level of the move loop: when every
+   successor answers with the draw score, whatever window, depth and table it is searched with, the loop's best
+   score is -DRAW_SCORE (no re-search is triggered: after the first move alpha = -DRAW_SCORE, and a zero-window
+   result equal to alpha is not above it), its best move is the first move, and the history is restored. *)
+Section AllDraw.
+Variable rec : Position -> SS -> Z -> Z -> Z -> Z -> bool -> option (Z * SS).
+Variable p : Position.
+Hypothesis Hdraw : forall m s a b pl d cn,
+  exists s', rec (makemove true p m) s a b pl d cn = Some (DRAW_SCORE, s') /\ ss_hist s' = ss_hist s.
+
+Lemma search_move_draw in_chk beta ply depth idx m s alpha :
+  (idx = 0 \/ - DRAW_SCORE <= alpha) ->
+  exists s', search_move rec p in_chk beta ply depth idx m (makemove true p m) s alpha = Some (- DRAW_SCORE, s')
+             /\ ss_hist s' = ss_hist s.
+Proof.
+  intros Hc. unfold search_move. destruct (Z.eqb_spec idx 0) as [E|E].
+  - destruct (Hdraw m s (- beta) (- alpha) (ply + 1) (depth - 1) true) as (s' & -> & Hh). exists s'. split; [reflexivity|exact Hh].
+  - destruct Hc as [Hc|Hc]; [contradiction|].
+    match goal with |- context [rec ?a ?b ?c ?d ?e ?f ?g] => destruct (Hdraw m b c d e f g) as (s' & -> & Hh) end.
+    cbv zeta. destruct (Z.ltb_spec alpha (- DRAW_SCORE)); [lia|]. exists s'. split; [reflexivity|exact Hh].
+Qed.
+
+(* once best = alpha-or-better = -DRAW_SCORE, the remaining moves change neither best score nor best move *)
+Lemma n_loop_rest in_chk beta ply depth : - DRAW_SCORE < beta ->
+  forall ms idx s alpha bm, - DRAW_SCORE <= alpha ->
+  exists a' s', n_loop rec p in_chk beta ply depth ms idx s alpha (- DRAW_SCORE) bm = Some (a', - DRAW_SCORE, bm, s')
+                /\ ss_hist s' = ss_hist s.
+Proof.
+  intros Hb. induction ms as [|m ms IH]; intros idx s alpha bm Ha; cbn [n_loop].
+  - exists alpha, s. split; reflexivity.
+  - destruct (search_move_draw in_chk beta ply depth idx m (push_hist (bump_nodes_ss s) (hash (makemove true p m))) alpha (or_intror Ha))
+      as (sx & -> & Hx). cbv zeta.
+    destruct (Z.ltb_spec (- DRAW_SCORE) (- DRAW_SCORE)); [lia|].
+    destruct (Z.ltb_spec alpha (- DRAW_SCORE)); [lia|].
+    assert (Hp : ss_hist (pop_hist sx) = ss_hist s) by (unfold pop_hist; cbn; rewrite Hx; reflexivity).
+    destruct (Z.leb_spec beta alpha).
+    + exists alpha, (pop_hist sx). split; [reflexivity|exact Hp].
+    + destruct (IH (idx + 1) (pop_hist sx) alpha bm Ha) as (a' & s' & E1 & E2).
+      exists a', s'. split; [exact E1|rewrite E2; exact Hp].
+Qed.
+
+(* the form used for the root: full window, no best move yet *)
+Theorem root_loop_all_draw in_chk beta ply depth m ms s :
+  - DRAW_SCORE < beta -> - INF < - DRAW_SCORE ->
+  exists a' s', n_loop rec p in_chk beta ply depth (m :: ms) 0 s (- INF) (- INF) None
+                = Some (a', - DRAW_SCORE, Some m, s')
+                /\ ss_hist s' = ss_hist s.
+Proof.
+  intros Hb Hi. cbn [n_loop].
+  destruct (search_move_draw in_chk beta ply depth 0 m (push_hist (bump_nodes_ss s) (hash (makemove true p m))) (- INF) (or_introl eq_refl))
+    as (sx & -> & Hx). cbv zeta.
+  destruct (Z.ltb_spec (- INF) (- DRAW_SCORE)); [|lia].
+  assert (Hp : ss_hist (pop_hist sx) = ss_hist s) by (unfold pop_hist; cbn; rewrite Hx; reflexivity).
+  destruct (Z.leb_spec beta (- DRAW_SCORE)); [lia|].
+  destruct (n_loop_rest in_chk beta ply depth Hb ms (0 + 1) (pop_hist sx) (- DRAW_SCORE) (Some m) ltac:(lia)) as (a' & s' & E1 & E2).
+  exists a', s'. split; [exact E1|rewrite E2; exact Hp].
+Qed.
+End AllDraw.
